@@ -91,9 +91,9 @@ impl Scenario for CryptSc {
         p.set("t", x.range(2, n as u64) as i64);
         p.steps.push(Step::new(class, &[index as i64]));
         if class.ends_with("-huge") {
-            // payloads of 64, 128 (thorough: 256) MiB: where a size limit, a five-byte length prefix or a 32-bit length would
+            // payloads of 64, 128 (thorough: 256, 384, 512) MiB: where a size limit, a five-byte length prefix or a 32-bit length would
             // sit; one run each, plain byte codec, no faults (the runs take seconds and gigabytes)
-            const HUGE: [usize; 10] = [(1 << 26) - 3, 1 << 27, 1 << 26, (1 << 27) + 1, (1 << 26) - 4, (1 << 27) - 4, (1 << 26) + 1, (1 << 28) - 5, 1 << 28, (1 << 28) + 1];
+            const HUGE: [usize; 13] = [(1 << 26) - 3, 1 << 27, 1 << 26, (1 << 27) + 1, (1 << 26) - 4, (1 << 27) - 4, (1 << 26) + 1, (1 << 28) - 5, 1 << 28, (1 << 28) + 1, (1 << 29) - 2, 1 << 29, (3 << 27) + 7];
             p.set("len", HUGE[(index as usize) % HUGE.len()] as i64);
             p.set("g", ((index / 2) % 2) as i64);
             p.set("scheme", (index % 3) as i64);
@@ -308,6 +308,28 @@ fn sc_roundtrip(plan: &Plan, lib: &dyn Lib, rec: &mut Rec) {
         let leaked = w.opt_value() == Some(Some(msg.as_slice())) && msg.len() >= 4;
         rec.expect("C11", "wrong-key-never-original", !leaked, || format!("wrong-key scheme={} g={} {} | decryption under another key returned the original message", scheme_name(scheme), g.name(), lenk));
     }
+    // a caller's message value that does not show the same bytes twice (a window over a buffer another component appends to
+    // or compacts): whatever is sealed is ONE of the views, whole — valid, and opened to exactly that view
+    if msg.len() <= 70000 {
+        let mut other_view = msg.clone();
+        match plan.seed % 3 {
+            0 => other_view.extend_from_slice(b";owner=mallory"),
+            1 => { other_view.truncate(msg.len() / 2); }
+            _ => { other_view.iter_mut().for_each(|b| *b = b.wrapping_add(1)); other_view.push(7); }
+        }
+        for which in [0u8, 3] {
+            for (v1, v2) in [(&msg, &other_view), (&other_view, &msg)] {
+                let o = rec.call(lib, g, Op::FickleMessage, &[&[which], &a.pk, &[scheme], v1, v2]);
+                rec.fault("caller-message-changes-between-reads");
+                let Some(fct) = o.first() else { continue };
+                let valid = rec.call(lib, g, Op::ScValid, &[fct]);
+                let opened = rec.call(lib, g, Op::ScDecrypt, &[fct, &a.sk]);
+                let got = opened.opt_value();
+                let fine = valid.flag() == Some(true) && (got == Some(Some(v1.as_slice())) || got == Some(Some(v2.as_slice())));
+                rec.expect("C11", "roundtrip-exact", fine, || format!("fickle-message route={} scheme={} g={} views of {} and {} bytes | the sealed ciphertext is valid={:?} and opens to {} — neither view", which, scheme_name(scheme), g.name(), v1.len(), v2.len(), valid.flag(), describe(&opened)));
+            }
+        }
+    }
     rec.sample(|| format!("scheme={} g={} len={} codec={} faults={}", scheme_name(scheme), g.name(), msg.len(), codec.name(), plan.faults.len()));
     c.finish(rec);
 }
@@ -502,6 +524,36 @@ fn thresh_decrypt(plan: &Plan, lib: &dyn Lib, rec: &mut Rec) {
         rec.expect("C12", "share-rejected-for-other-participant", !v.is_ok(), || format!("other-participant scheme={} g={} | share {} verifies against key share {}", sch, g.name(), i + 1, j + 1));
         let v = rec.call(lib, g, Op::DShareVerify, &[&dshares[i], &d.pk_shares[i], &ct2]);
         rec.expect("C12", "share-rejected-for-other-ciphertext", !v.is_ok(), || format!("other-ciphertext scheme={} g={} | share {} verifies against another ciphertext", sch, g.name(), i + 1));
+    }
+    // what the undivided key opens, the committee opens: a VALID ciphertext made by hand (a sender who knows r), whose
+    // payload is not padded to 32 bytes the way the library's own sealing pads it
+    if !big {
+        if let (Some((tags, _)), Some(pkp)) = (crate::sc_sign::own_tags(rec, lib, g), Pt::from_bytes(&d.pk)) {
+            let bref = Bls::with_tags(sig_grp(g), tags.clone());
+            let tag = [&tags.basic, &tags.aug, &tags.pop_sig][(scheme as usize).min(2)];
+            let short = b"hand-made".to_vec();
+            let mut frame = vec![short.len() as u8];
+            frame.extend_from_slice(&short);
+            let hm = refimpl::signcrypt_seal_framed(&bref, &pkp, &frame, tag, &refimpl::keygen(&x.bytes(19)));
+            let hb = SignCryptFields { u: hm.u.to_bytes(), v: hm.v.clone(), w: hm.w.to_bytes(), scheme: scheme.min(2) }.build();
+            let whole = rec.call(lib, g, Op::ScDecrypt, &[&hb, &d.sk]);
+            if whole.opt_value() == Some(Some(short.as_slice())) {
+                rec.probe("hand-made-unpadded-ciphertext-opened-by-the-undivided-key");
+                let mut hs: Vec<Vec<u8>> = vec![];
+                for (i, s) in d.shares.iter().enumerate().take(t) {
+                    let o = rec.call(lib, g, Op::ScShare, &[&hb, s]);
+                    rec.expect("C12", "decryption-share-created", o.is_ok(), || format!("create hand-made-unpadded scheme={} g={} | participant {} gets no decryption share for a ciphertext the undivided key opens: {:?}", sch, g.name(), i + 1, o.kind()));
+                    if let Some(b) = o.first() {
+                        hs.push(b.to_vec());
+                    }
+                }
+                if hs.len() == t {
+                    let args: Vec<&[u8]> = std::iter::once(hb.as_slice()).chain(hs.iter().map(|b| b.as_slice())).collect();
+                    let a = rec.call(lib, g, Op::ScDecryptShares, &args);
+                    rec.expect("C12", "t-shares-decrypt-exactly", a.opt_value() == Some(Some(short.as_slice())), || format!("decrypt_with_shares hand-made-unpadded scheme={} g={} | t={} n={}: the committee does not open what the undivided key opens: {}", sch, g.name(), t, n, describe(&a)));
+                }
+            }
+        }
     }
     let check_set = |rec: &mut Rec, order: &[usize], how: &str| {
         let distinct: std::collections::BTreeSet<usize> = order.iter().copied().collect();
@@ -963,6 +1015,55 @@ fn eg_tally(plan: &Plan, lib: &dyn Lib, rec: &mut Rec) {
     // conservation: the sum of what was included, nothing more, nothing less
     let whole = rec.call(lib, g, Op::EgDecrypt, &[&acc, &d.sk]);
     rec.expect("C14", "sum-decrypts-to-sum-of-plaintexts", whole.first() == Some(want.as_slice()), || format!("sum whole-key g={} | {} ciphertexts (arrival order {:?}): the sum does not decrypt to the sum of the included plaintexts times H", g.name(), included.len(), included));
+    // ciphertexts an application assembles itself through the public fields: the trivial encryption of a public constant
+    // (O, k*H) that a tally adds to every ballot, and encryptions under blinders b and -b whose partial sum has c1 = O.
+    // Every operator form, both operand orders, both associations: the sum is the component-wise sum, and it decrypts to the
+    // sum of the plaintexts.
+    if let Some(pkp) = Pt::from_bytes(&d.pk) {
+        let p = b.pk_gen();
+        let enc = |m: &refimpl::Sc, bl: &refimpl::Sc| -> (Pt, Pt) { (p.mul(bl), pkp.mul(bl).add(&h.mul(m))) };
+        let bytes = |c: &(Pt, Pt)| ElGamalFields { c1: c.0.to_bytes(), c2: c.1.to_bytes(), proof: None }.build();
+        let beta = refimpl::keygen(&x.bytes(17));
+        let ms: Vec<refimpl::Sc> = (0..4).map(|i| if i == 3 { refimpl::scalar_from_u64(7) } else { refimpl::keygen(&x.bytes(18 + i)) }).collect();
+        let ops: Vec<(&str, (Pt, Pt))> = vec![
+            ("Enc(m1; b)", enc(&ms[0], &beta)),
+            ("Enc(m2; -b)", enc(&ms[1], &(-beta))),
+            ("Enc(m3; r)", enc(&ms[2], &refimpl::keygen(&x.bytes(22)))),
+            ("public constant (O, k*H)", enc(&ms[3], &refimpl::scalar_from_u64(0))),
+        ];
+        let mode0 = (plan.seed % 6) as u8;
+        for (i, (ni, ci)) in ops.iter().enumerate() {
+            for (j, (nj, cj)) in ops.iter().enumerate() {
+                if i == j {
+                    continue;
+                }
+                let want = bytes(&(ci.0.add(&cj.0), ci.1.add(&cj.1)));
+                for k in 0..2u8 {
+                    let mode = [(mode0 + k * 3) % 6];
+                    let got = rec.call(lib, g, Op::EgAdd, &[&bytes(ci), &bytes(cj), &mode]);
+                    if !got.is_ok() && (ci.0.is_identity() || cj.0.is_identity()) {
+                        rec.probe("ciphertext-with-identity-component-not-importable");
+                        continue;
+                    }
+                    rec.expect("C14", "sum-decrypts-to-sum-of-plaintexts", got.first() == Some(want.as_slice()), || format!("assembled-operands g={} operator-form={} | {} + {} is not the component-wise sum", g.name(), mode[0], ni, nj));
+                }
+            }
+        }
+        // c + (a + b) and (c + a) + b, where a + b has c1 = O
+        let ab = rec.call(lib, g, Op::EgAdd, &[&bytes(&ops[0].1), &bytes(&ops[1].1), &[mode0]]);
+        let ca = rec.call(lib, g, Op::EgAdd, &[&bytes(&ops[2].1), &bytes(&ops[0].1), &[mode0]]);
+        if let (Some(ab), Some(ca)) = (ab.first(), ca.first()) {
+            let right = rec.call(lib, g, Op::EgAdd, &[&bytes(&ops[2].1), ab, &[(mode0 + 1) % 6]]);
+            let left = rec.call(lib, g, Op::EgAdd, &[ca, &bytes(&ops[1].1), &[(mode0 + 1) % 6]]);
+            let want3 = h.mul(&(ms[0] + ms[1] + ms[2])).to_bytes();
+            for (what, s3) in [("c + (a + b)", &right), ("(c + a) + b", &left)] {
+                if let Some(s3) = s3.first() {
+                    let dec = rec.call(lib, g, Op::EgDecrypt, &[s3, &d.sk]);
+                    rec.expect("C14", "sum-decrypts-to-sum-of-plaintexts", dec.first() == Some(want3.as_slice()), || format!("assembled-operands g={} | {} with cancelling blinders in a and b does not decrypt to (m1 + m2 + m3)*H", g.name(), what));
+                }
+            }
+        }
+    }
     // threshold decryption from any t-of-n shares, in any order
     let mut idx: Vec<usize> = (0..n).collect();
     if n > 12 {
